@@ -400,3 +400,78 @@ def run(ctx):
                 cmp_ok = next_var is not None
     ctx.ob("R13.4", "read|range-check", cmp_ok, rd.loc(), "a module with a preassigned range is renumbered from def->first_index and the result is compared with def->next_index")
     ctx.ob("R13.4", "read|anonymous-range", anon, rd.loc(), "a file without a preassigned range is appended at _next_index, which advances to the returned value")
+    mapping_before_use(ctx)
+
+def mapping_before_use(ctx):
+    """R13.5: merge_from translates every index of an incoming record with `remap`.  A record can refer to a shared type
+    that comes later in the incoming file, so the other->this type mapping must be complete before the first record is
+    translated: no add_mapping() may be reachable after a remap_indices(remap) call."""
+    db = ctx.db
+    ctx.rule("R13.5", "in merge_from no remap.add_mapping() call is reachable from a remap_indices(remap) call (the type mapping is complete before any record is translated); merge_with keeps the fully defined side, and among two fully defined sides the global one")
+    fn = db.fn("InterrogateDatabase::merge_from")
+    cfg = fn.cfg
+    adds = [c for c in fn.walk() if c.get("k") == "call" and callee_short(c) == "add_mapping"]
+    uses = [c for c in fn.walk() if c.get("k") == "call" and callee_short(c) == "remap_indices"]
+    if not adds or not uses:
+        ctx.broken("merge_from: add_mapping / remap_indices calls not found")
+    bad = None
+    for u in uses:
+        lu = cfg.locate(u)
+        if lu is None:
+            continue
+        seen = set()
+        for s0 in cfg.blocks[lu[0]].succs:
+            if s0 is not None:
+                seen |= cfg.reachable(s0)
+        for a in adds:
+            la = cfg.locate(a)
+            if la is not None and (la[0] in seen or (la[0] == lu[0] and la[1] > lu[1])):
+                bad = (u, a)
+    ctx.ob("R13.5", "merge_from|mapping-complete-before-first-translation", bad is None, fn.loc(adds[0]),
+           "the mapping is complete before records are translated" if bad is None else
+           "`%s` (line %d) can still run after `%s` (line %d) has translated a record" % (show(bad[1])[:40], fn.line_of(bad[1]), show(bad[0])[:40], fn.line_of(bad[0])))
+    # merge_with: who wins
+    mw = db.fn("InterrogateType::merge_with")
+    ifs = [n for n in mw.walk() if n.get("k") == "if"]
+    if not ifs:
+        ctx.broken("merge_with: the winner test not found")
+    top = ifs[0]
+    other = mw.params[0]["n"]
+
+    def ev(e, this_fd, other_fd, other_gl):
+        e = peel(e)
+        k = e.get("k")
+        if k == "bin" and e.get("op") in ("&&", "||"):
+            a, b = ev(e["x"], this_fd, other_fd, other_gl), ev(e["y"], this_fd, other_fd, other_gl)
+            return (a and b) if e["op"] == "&&" else (a or b)
+        if k == "un" and e.get("op") == "!":
+            return not ev(e["e"], this_fd, other_fd, other_gl)
+        if k == "call" and callee_short(e) == "is_fully_defined":
+            t = strip_casts(peel(e.get("this")))
+            return other_fd if (t is not None and t.get("k") == "ref" and t.get("n") == other) else this_fd
+        if k == "call" and callee_short(e) == "is_global":
+            t = strip_casts(peel(e.get("this")))
+            if t is not None and t.get("k") == "ref" and t.get("n") == other:
+                return other_gl
+            raise ValueError("is_global() of this")
+        if k == "bin" and e.get("op") in ("==", "!="):
+            l, r = strip_casts(peel(e["x"])), e["y"]
+            if l is not None and l.get("k") == "bin" and l.get("op") == "&" and const_int(r) == 0:
+                names = [x["n"].split("::")[-1] for x in walk(l) if x.get("k") == "ref" and x.get("dk") == "enumc"]
+                objs = [x for x in walk(l) if x.get("k") == "mem" and x.get("n", "").endswith("_flags")]
+                if names == ["F_global"] and objs and (strip_casts(peel(objs[0].get("b"))) or {}).get("n") == other:
+                    return (not other_gl) if e["op"] == "==" else other_gl
+        raise ValueError("unrecognised sub-condition " + show(e)[:40])
+    bad2 = []
+    try:
+        for tf in (False, True):
+            for of in (False, True):
+                for og in (False, True):
+                    got = bool(ev(top["c"], tf, of, og))
+                    want = tf and (not of or not og)
+                    if got != want:
+                        bad2.append("this %s, other %s%s: %s wins, documented: %s" % ("full" if tf else "partial", "full" if of else "partial", "+global" if og else "", "this" if got else "other", "this" if want else "other"))
+    except ValueError as e:
+        bad2.append(str(e))
+    ctx.ob("R13.5", "merge_with|fully-defined-then-global-wins", not bad2, mw.loc(top), "; ".join(bad2[:3]) if bad2 else "the eight combinations agree with the documented rule")
+
